@@ -727,6 +727,8 @@ func (v *fnVC) convert(i *ssa.Convert, st *State) {
 		h := st.get(elemHeap(sU8), arrSort(sRef, arrSort(sI64, sU8)))
 		r := v.bind(i, mk(sapp("bytes2s", sapp("select", h.S, sapp("sl_arr", x.S)), sapp("sl_off", x.S), sapp("sl_len", x.S)), sStr))
 		e.assume(mk(sapp("=", sapp("slen", r.S), sapp("sl_len", x.S)), sBool))
+		// string(b) holds the bytes b has at the time of the conversion
+		e.assume(mk(fmt.Sprintf("(forall ((i (_ BitVec 64))) (! (=> (and (bvsle #x0000000000000000 i) (bvslt i (sl_len %s))) (= (sat %s i) (select (select %s (sl_arr %s)) (bvadd (sl_off %s) i)))) :pattern ((sat %s i))))", x.S, r.S, h.S, x.S, x.S, r.S), sBool))
 		if x.Op == "bytesof" {
 			e.assume(tEq(r, x.Args[0]))
 		}
